@@ -5,6 +5,7 @@ package main
 
 import (
 	"bufio"
+	"bytes"
 	"encoding/json"
 	"flag"
 	"fmt"
@@ -97,12 +98,38 @@ func (c *ctx) emitTo(s int, v interface{}) {
 	if err != nil {
 		fatal(err)
 	}
+	if bytes.Contains(b, []byte("null")) {
+		// the TLA+ Json module rejects null: re-encode with every null replaced by an empty array
+		var x interface{}
+		if err := json.Unmarshal(b, &x); err != nil {
+			fatal(err)
+		}
+		if b, err = json.Marshal(denull(x)); err != nil {
+			fatal(err)
+		}
+	}
 	c.mu.Lock()
 	c.w[s].Write(b)
 	c.w[s].WriteByte('\n')
 	c.count[s]++
 	c.mu.Unlock()
 	progress()
+}
+
+func denull(x interface{}) interface{} {
+	switch v := x.(type) {
+	case nil:
+		return []interface{}{}
+	case []interface{}:
+		for i := range v {
+			v[i] = denull(v[i])
+		}
+	case map[string]interface{}:
+		for k := range v {
+			v[k] = denull(v[k])
+		}
+	}
+	return x
 }
 
 func fatal(err interface{}) {
